@@ -157,10 +157,12 @@ fn judge_trace(l: &Log, n: usize, lock: Option<&[(usize, usize)]>) -> Vec<(&'sta
                 if let Some(r) = owed_for(l.data(e)) {
                     // owed only if the unit did not fail: no error before the next unit / transport call
                     let mut failed = false;
+                    let mut number = 0i32;
                     for f in &ev[i + 1..] {
                         match f.k {
                             K::Err => {
                                 failed = true;
+                                number = String::from_utf8_lossy(l.data(f)).split(':').next().and_then(|x| x.parse().ok()).unwrap_or(0);
                                 break;
                             }
                             K::Exit => {}
@@ -171,7 +173,11 @@ fn judge_trace(l: &Log, n: usize, lock: Option<&[(usize, usize)]>) -> Vec<(&'sta
                     // returns an error, or its response does not fit the N-byte response buffer;
                     // otherwise the error belongs to the (parse-faulty) unit that follows
                     // (the responses of one message share the N-byte buffer until they are written)
-                    let too_big = pending_bytes + r.len() > n;
+                    // ("too much data" / "system error" right behind a query is the library's way of
+                    // saying that its response found no room - how the room is shared between the
+                    // responses of a message is not specified)
+                    let no_room = number == -223 || number == -310;
+                    let too_big = pending_bytes + r.len() > n || (failed && no_room);
                     let own = l.data(e).starts_with(b"A:F?") || too_big;
                     if !failed || !own {
                         pending_bytes += r.len();
